@@ -433,6 +433,55 @@ func init() {
 					}
 					judgeProgram(c, prog, data, "long-chain", true)
 				}})
+			// (3c) conditions computed by built-in functions: what a function returns is judged by the one truthiness table, whatever
+			// the function wrapped it in (an empty string out of raw(), trim(), then(); 0 out of len(), binary(), floor() ...)
+			{
+				lit := func(v model.Value) model.Expr { return literalOf(v) }
+				call := func(x model.Expr, name string, args ...model.Expr) model.Expr { return model.Call{X: x, Name: name, Args: args} }
+				type recvCall struct {
+					recv model.Value
+					name string
+					args []model.Value
+				}
+				calls := []recvCall{
+					{model.Str(""), "raw", nil}, {model.Str(" "), "raw", nil}, {model.Str("&lt;"), "raw", nil}, {model.Str("  "), "trim", nil}, {model.Str(" a "), "trim", nil},
+					{model.Str(""), "upper", nil}, {model.Str(""), "lower", nil}, {model.Str(""), "reverse", nil}, {model.Str(""), "capitalize", nil}, {model.Str("a"), "upper", nil},
+					{model.Str(""), "len", nil}, {model.Str("ab"), "len", nil}, {model.Arr(), "len", nil}, {model.Arr(model.Int(0)), "len", nil}, {model.Arr(), "join", []model.Value{model.Str(",")}},
+					{model.Arr(model.Str("")), "join", []model.Value{model.Str(",")}}, {model.Str("a"), "contains", []model.Value{model.Str("b")}}, {model.Str("a"), "contains", []model.Value{model.Str("a")}},
+					{model.Arr(model.Int(1)), "contains", []model.Value{model.Int(2)}}, {model.Arr(model.Int(1)), "contains", []model.Value{model.Int(1)}}, {model.Int(0), "abs", nil}, {model.Int(-3), "abs", nil},
+					{model.Int(0), "float", nil}, {model.Int(2), "float", nil}, {model.Int(0), "str", nil}, {model.Float(0.4), "int", nil}, {model.Float(0.4), "floor", nil}, {model.Float(0.4), "ceil", nil}, {model.Float(-0.4), "round", nil},
+					{model.Float(0), "abs", nil}, {model.Float(0), "str", nil}, {model.Bool(false), "binary", nil}, {model.Bool(true), "binary", nil}, {model.Bool(false), "then", []model.Value{model.Str("x")}},
+					{model.Bool(true), "then", []model.Value{model.Str("")}}, {model.Bool(true), "then", []model.Value{model.Int(0)}}, {model.Bool(false), "then", []model.Value{model.Str("x"), model.Str("")}},
+					{model.Bool(false), "then", []model.Value{model.Str("x"), model.Str("y")}}, {model.Str("ab"), "repeat", []model.Value{model.Int(0)}}, {model.Str(""), "repeat", []model.Value{model.Int(3)}},
+					{model.Arr(model.Int(1)), "slice", []model.Value{model.Int(1)}}, {model.Str(""), "split", []model.Value{model.Str(",")}}, {model.Str("abc"), "truncate", []model.Value{model.Int(0), model.Str("")}},
+					{model.Str(""), "first", nil}, {model.Str(""), "last", nil}, {model.Str("a"), "first", nil}, {model.Arr(), "reverse", nil}, {model.Arr(), "append", nil}, {model.Str("0"), "decimal", nil},
+				}
+				secs = append(secs, core.Section{Name: "conditions-computed-by-built-ins", Exhaustive: true, N: len(calls) * 2,
+					Run: func(c *core.Ctx, i int) {
+						rc := calls[i/2]
+						asData := i%2 == 1
+						data := map[string]model.Value{}
+						var recv model.Expr = lit(rc.recv)
+						if asData {
+							data["recv"] = rc.recv
+							recv = model.Var{Name: "recv"}
+						}
+						var args []model.Expr
+						for _, a := range rc.args {
+							args = append(args, lit(a))
+						}
+						cond := call(recv, rc.name, args...)
+						v := model.Var{Name: "v"}
+						prog := []model.Stmt{
+							model.If{Conds: []model.Expr{cond}, Bodies: [][]model.Stmt{{model.Text{S: "T"}}}, Else: []model.Stmt{model.Text{S: "F"}}}, model.Text{S: "|"},
+							model.If{Conds: []model.Expr{model.Lit{V: model.Bool(false)}, cond}, Bodies: [][]model.Stmt{{model.Text{S: "no"}}, {model.Text{S: "T"}}}, Else: []model.Stmt{model.Text{S: "F"}}}, model.Text{S: "|"},
+							model.Print{E: model.Ternary{C: cond, A: model.StrLit{S: "A"}, B: model.StrLit{S: "B"}}}, model.Text{S: "|"},
+							model.Each{Var: "v", Arr: intArr(1, 2, 3), Body: []model.Stmt{model.Print{E: v}, model.BreakIf{E: cond}, model.Text{S: ","}}}, model.Text{S: "|"},
+							model.Each{Var: "v", Arr: intArr(1, 2, 3), Body: []model.Stmt{model.Print{E: v}, model.ContinueIf{E: cond}, model.Text{S: ","}}},
+						}
+						judgeProgram(c, prog, data, "built-in-condition", false)
+					}})
+			}
 			// (4) ternary over the whole table, arms traced, and failing arms
 			secs = append(secs, core.Section{Name: "ternary", Exhaustive: true, N: len(condTable) * 2 * 13,
 				Run: func(c *core.Ctx, i int) {
